@@ -6,6 +6,7 @@ import (
 	"testing"
 	"time"
 
+	"golang.org/x/text/unicode/norm"
 	"pgregory.net/rapid"
 
 	"verifharness/bn"
@@ -64,6 +65,10 @@ func c13ObjectProgram(rt *rapid.T) (string, []string) {
 	var b strings.Builder
 	b.WriteString("ফাংশন t(tag, v) { দেখাও tag; ফেরত v; }\n")
 	keys := []string{"zeta", "alpha", "mid", "ক", "b2", "k", "y", "omega"}
+	if rapid.Bool().Draw(rt, "equivalentKeys") {
+		// property names that are canonically equivalent but differently encoded are distinct keys
+		keys = []string{"সম\u09df", "zeta", "সম\u09af\u09bc", "caf\u00e9", "k", "cafe\u0301", "ক\u09cb", "ক\u09c7\u09be"}
+	}
 	var order []string
 	nObj := rapid.IntRange(1, 3).Draw(rt, "nobj")
 	for o := 0; o < nObj; o++ {
@@ -141,7 +146,8 @@ func TestC13(t *testing.T) {
 					seen = append(seen, ln)
 				}
 			}
-			if strings.Join(seen, ",") != strings.Join(order, ",") {
+			// দেখাও writes NFC: compare the tags in that form
+			if norm.NFC.String(strings.Join(seen, ",")) != norm.NFC.String(strings.Join(order, ",")) {
 				s.Violation(Replay{Check: "determinism", Sig: "initialiser-order", Source: src, Note: "object-literal initialisers did not run in source order",
 					Expected: strings.Join(order, ","), Observed: strings.Join(seen, ",")})
 			}
